@@ -391,6 +391,85 @@ func c04(c *Ctx) {
 			r.Check(nSkip >= 1, "C04.P4", hgm.Name(), "skipping edge found", c.P.Pos(hgm.Node().Pos()), itoa(nSkip), "no edge that skips a message was found: filter shape not recognised")
 		}
 		r.Check(n >= 1, "C04.P4", hgm.Name(), "stream writes found", c.P.Pos(hgm.Node().Pos()), itoa(n), "no json Encode of a message in handleGetMessages")
+		// P4c a batch that was taken from the follower goroutine is written before the handler can leave: the checks that end
+		// the request (session gone, node partitioned) come after the write — the batch that announces the end of the session
+		// (the closing ERROR, a KILL notice) still reaches the client, and the follower's position has moved past it already
+		{
+			nRecv := 0
+			ast.Inspect(hgm.Body(), func(m ast.Node) bool {
+				cc, ok := m.(*ast.CommClause)
+				if !ok || cc.Comm == nil {
+					return true
+				}
+				as, ok := cc.Comm.(*ast.AssignStmt)
+				if !ok || len(as.Lhs) != 1 || len(as.Rhs) != 1 {
+					return true
+				}
+				ue, ok := ast.Unparen(as.Rhs[0]).(*ast.UnaryExpr)
+				if !ok || ue.Op != token.ARROW {
+					return true
+				}
+				id, ok := as.Lhs[0].(*ast.Ident)
+				if !ok {
+					return true
+				}
+				sl, isSl := hi.TypeOf(id).Underlying().(*types.Slice)
+				if !isSl || !astx.IsNamed(derefType(sl.Elem()), pathRobust, "Message") {
+					return true
+				}
+				recvObj := astx.Obj(hi, id)
+				nRecv++
+				// the loop that writes it
+				var heads []int
+				ast.Inspect(cc, func(k ast.Node) bool {
+					rs, ok := k.(*ast.RangeStmt)
+					if !ok {
+						return true
+					}
+					if xid, ok := ast.Unparen(rs.X).(*ast.Ident); ok && astx.Obj(hi, xid) == recvObj {
+						for _, v := range hg.V {
+							for _, e := range v.Succ {
+								if e.Range == rs {
+									heads = append(heads, v.ID)
+								}
+							}
+						}
+					}
+					return true
+				})
+				start := -1
+				if len(cc.Body) > 0 {
+					start = hg.VertexOf(cc.Body[0])
+				}
+				bad := token.NoPos
+				if len(heads) > 0 && start >= 0 {
+					isHead := func(x int) bool {
+						for _, h := range heads {
+							if h == x {
+								return true
+							}
+						}
+						return false
+					}
+					if !isHead(start) {
+						reach := hg.Reach(start, isHead, nil)
+						for _, rv := range hg.Returns() {
+							if reach[rv.ID] || rv.ID == start {
+								bad = rv.Node.Pos()
+							}
+						}
+					}
+				}
+				pos := as.Pos()
+				if bad.IsValid() {
+					pos = bad
+				}
+				r.Check(len(heads) > 0 && !bad.IsValid(), "C04.P4", hgm.Name(), "a received batch is written before the request can end", c.P.Pos(pos), "no return between the receive and the loop over the batch",
+					"handleGetMessages can return after it took a batch from the follower and before it wrote it: the follower has moved on, the client resumes behind the batch, and what it contained for this session (e.g. the line that says why the session ended) is never delivered")
+				return true
+			})
+			r.Check(nRecv >= 1, "C04.P4", hgm.Name(), "receive of a batch found", c.P.Pos(hgm.Node().Pos()), itoa(nRecv), "no receive of a message batch in handleGetMessages")
+		}
 	}
 
 	// ---------- P5: position from the two parts of lastseen, in order
